@@ -204,7 +204,7 @@ def r03e(ck, fb):
     h = ck.main(LIM + 'handle_request', 'R03e')
     if h:
         st = h.calls(r'LogInnerManager::strip_log_to$')
-        ck.require(len(st) == 1 and util.awaited(h, st[0]), 'R03e', 'handle_request:strip', h.where(), 'StripLogToIndex is not served by strip_log_to')
+        ck.require(len(st) >= 1 and all(util.awaited(h, _x) for _x in st), 'R03e', 'handle_request:strip', h.where(), 'StripLogToIndex is not served by strip_log_to')
         if st:
             vg = util.variant_guards(h, st[0].bb)
             ck.require(any(v == 'StripLogToIndex' for (_, v) in vg), 'R03e', 'handle_request:strip-arm', st[0].where(),
